@@ -680,6 +680,12 @@ func encodeValue(t *sx, seed uint64, errMode, wrap int) string {
 //	ma  map[string]any  mn gM  mi map[int]any    any-slots (keys k0.. / 0..)
 //	mp  map[string]*gT   pt-slots
 //
+//	hp  *gH              slots N Y St L M  (N, St: shape-slots; Y any-slot; L: sh; M: mh)
+//	ph  *gShape  py *gAny                 one shape-slot / any-slot
+//	sh  []gShape  ss []fmt.Stringer  mh map[string]gShape      shape-slots
+//	sy  []gAny  my map[string]gAny                             any-slots
+//
+// shape-slot (non-empty interface):  -  |  <id> of a pt, hp, mn or sn object  |  W<id> gW{P} of a pt object
 // typed slot:  -  |  <id>            any-slot:  - (nil) | l (7) | <id> (the object boxed) | T<id> gT{A: boxed} by value |
 // W<id> gW{P} | Y<id> [1]*gT | X<id> [1]any | V<id> gV{M} | Z<id> &gT{A: boxed} (a fresh pointer)
 //
@@ -697,6 +703,29 @@ type gT struct {
 	W gW
 }
 type gW struct{ P *gT }
+
+// interface types other than plain interface{}: they take another path in the encoder (encodeMaybeEmptyInterface)
+type gAny interface{}                 // a NAMED empty interface
+type gShape interface{ c06Tag() int } // a non-empty user interface, implemented by *gT, *gH, gM, gL and gW
+type gH struct {
+	N  gShape
+	Y  gAny
+	St fmt.Stringer
+	L  []gShape
+	M  map[string]gShape
+}
+
+func (*gT) c06Tag() int    { return 1 }
+func (*gH) c06Tag() int    { return 2 }
+func (gM) c06Tag() int     { return 3 }
+func (gL) c06Tag() int     { return 4 }
+func (gW) c06Tag() int     { return 5 }
+func (*gT) String() string { return "gT" }
+func (*gH) String() string { return "gH" }
+func (gM) String() string  { return "gM" }
+func (gL) String() string  { return "gL" }
+func (gW) String() string  { return "gW" }
+
 type gV struct{ M map[string]any }
 type gM map[string]any
 type gL []any
@@ -743,6 +772,22 @@ func buildGraph(desc string) []*gObj {
 			o.val = reflect.ValueOf(make(map[int]any))
 		case "mp":
 			o.val = reflect.ValueOf(make(map[string]*gT))
+		case "hp":
+			o.val = reflect.ValueOf(new(gH))
+		case "ph":
+			o.val = reflect.ValueOf(new(gShape))
+		case "py":
+			o.val = reflect.ValueOf(new(gAny))
+		case "sh":
+			o.val = reflect.ValueOf(make([]gShape, n))
+		case "ss":
+			o.val = reflect.ValueOf(make([]fmt.Stringer, n))
+		case "mh":
+			o.val = reflect.ValueOf(make(map[string]gShape))
+		case "sy":
+			o.val = reflect.ValueOf(make([]gAny, n))
+		case "my":
+			o.val = reflect.ValueOf(make(map[string]gAny))
 		default:
 			panic("c06: bad graph tag " + o.tag)
 		}
@@ -779,6 +824,22 @@ func buildGraph(desc string) []*gObj {
 			return &gT{A: in}
 		}
 		panic("c06: bad slot " + s)
+	}
+	shapeOf := func(s string) any { // a value for a non-empty interface slot
+		switch {
+		case s == "-" || s == "":
+			return nil
+		case s[0] == 'W':
+			return gW{P: ref(s[1:]).val.Interface().(*gT)}
+		}
+		return ref(s).val.Interface()
+	}
+	// ifaceVal: x as a reflect.Value assignable to interface type t (the zero interface for nil)
+	ifaceVal := func(t reflect.Type, x any) reflect.Value {
+		if x == nil {
+			return reflect.Zero(t)
+		}
+		return reflect.ValueOf(x)
 	}
 	for _, o := range objs {
 		sl := func(i int) string {
@@ -825,6 +886,43 @@ func buildGraph(desc string) []*gObj {
 		case "mp":
 			for i := range o.slots {
 				o.val.SetMapIndex(reflect.ValueOf("k"+strconv.Itoa(i)), reflect.ValueOf(pt(sl(i))))
+			}
+		case "hp":
+			h := o.val.Interface().(*gH)
+			if x := shapeOf(sl(0)); x != nil {
+				h.N = x.(gShape)
+			}
+			h.Y = anyOf(sl(1))
+			if x := shapeOf(sl(2)); x != nil {
+				h.St = x.(fmt.Stringer)
+			}
+			if s := sl(3); s != "-" {
+				h.L = ref(s).val.Interface().([]gShape)
+			}
+			if s := sl(4); s != "-" {
+				h.M = ref(s).val.Interface().(map[string]gShape)
+			}
+		case "ph":
+			if x := shapeOf(sl(0)); x != nil {
+				*(o.val.Interface().(*gShape)) = x.(gShape)
+			}
+		case "py":
+			*(o.val.Interface().(*gAny)) = anyOf(sl(0))
+		case "sh", "ss":
+			for i := range o.slots {
+				o.val.Index(i).Set(ifaceVal(o.val.Type().Elem(), shapeOf(sl(i))))
+			}
+		case "sy":
+			for i := range o.slots {
+				o.val.Index(i).Set(ifaceVal(o.val.Type().Elem(), anyOf(sl(i))))
+			}
+		case "mh":
+			for i := range o.slots {
+				o.val.SetMapIndex(reflect.ValueOf("k"+strconv.Itoa(i)), ifaceVal(o.val.Type().Elem(), shapeOf(sl(i))))
+			}
+		case "my":
+			for i := range o.slots {
+				o.val.SetMapIndex(reflect.ValueOf("k"+strconv.Itoa(i)), ifaceVal(o.val.Type().Elem(), anyOf(sl(i))))
 			}
 		}
 	}
@@ -1595,15 +1693,42 @@ func randomSoup() []byte {
 
 // ---- graph generation ----
 
-var gTags = []string{"pt", "pt", "pi", "sa", "sa", "sn", "sp", "ma", "ma", "mn", "mi", "mp"}
+var gTags = []string{"pt", "pt", "pi", "sa", "sa", "sn", "sp", "ma", "ma", "mn", "mi", "mp",
+	"hp", "hp", "ph", "py", "sh", "ss", "mh", "sy", "my"}
+
+// objects whose handle implements gShape (and fmt.Stringer): they can be stored in a shape-slot
+var gShapeTags = []string{"pt", "hp", "mn", "sn"}
+
+func isShapeTag(t string) bool { return t == "pt" || t == "hp" || t == "mn" || t == "sn" }
+
+// gOnlyTo: the tags an object can refer to when it has no any-slot (nil: anything)
+func gOnlyTo(tag string) []string {
+	switch tag {
+	case "sp", "mp":
+		return []string{"pt"}
+	case "ph", "sh", "ss", "mh":
+		return gShapeTags
+	}
+	return nil
+}
 
 // slot kinds of an object: 'a' any-slot, or the tag a typed slot requires
 func gSlotKinds(tag string, n int) []string {
 	switch tag {
 	case "pt":
 		return []string{"a", "pt", "sa", "ma", "mn", "pi", "a", "a", "pt"}
-	case "pi":
+	case "hp":
+		return []string{"h", "a", "h", "sh", "mh"}
+	case "pi", "py":
 		return []string{"a"}
+	case "ph":
+		return []string{"h"}
+	case "sh", "ss", "mh":
+		k := make([]string, n)
+		for i := range k {
+			k[i] = "h"
+		}
+		return k
 	case "sp", "mp":
 		k := make([]string, n)
 		for i := range k {
@@ -1640,7 +1765,7 @@ func (g *gGen) link(from, to int) bool {
 	kinds := gSlotKinds(g.tags[from], len(g.slots[from]))
 	var free, usable []int
 	for i, k := range kinds {
-		if k == "a" || k == g.tags[to] {
+		if k == "a" || k == g.tags[to] || (k == "h" && isShapeTag(g.tags[to])) {
 			usable = append(usable, i)
 			if g.slots[from][i] == "-" {
 				free = append(free, i)
@@ -1665,15 +1790,19 @@ func (g *gGen) link(from, to int) bool {
 			w = append(w, "V")
 		}
 		s = pick(w) + s
+	} else if kinds[i] == "h" && g.tags[to] == "pt" && rndn(3) == 0 {
+		s = "W" + s
 	}
 	g.slots[from][i] = s
 	return true
 }
 
-// compatible successor tag: sp and mp can only refer to pt objects
+// compatible successor tag: objects without an any-slot can only refer to some kinds of objects
 func (g *gGen) addAfter(prev int) int {
-	if prev >= 0 && (g.tags[prev] == "sp" || g.tags[prev] == "mp") {
-		return g.add("pt")
+	if prev >= 0 {
+		if only := gOnlyTo(g.tags[prev]); only != nil {
+			return g.add(pick(only))
+		}
 	}
 	return g.add(pick(gTags))
 }
@@ -1692,8 +1821,12 @@ func (g *gGen) chain(n int, small bool) (int, int) {
 	for i := 0; i < n; i++ {
 		var id int
 		if small {
-			id = g.add(pick([]string{"pi", "pi", "sa", "ma", "pt"}))
-			if g.tags[id] != "pt" {
+			pool := []string{"pi", "pi", "sa", "ma", "pt", "py", "ph", "sy", "my", "sh", "mh", "hp", "mn"}
+			if prev >= 0 && gOnlyTo(g.tags[prev]) != nil {
+				pool = []string{"pt", "hp", "mn"}
+			}
+			id = g.add(pick(pool))
+			if t := g.tags[id]; t != "pt" && t != "hp" {
 				g.slots[id] = g.slots[id][:1]
 			}
 		} else {
@@ -1748,7 +1881,7 @@ func c06Graphs(thorough bool) {
 						prev = id
 					}
 					// close the cycle: the last object must be able to refer to the first
-					if t := g.tags[cyc[clen-1]]; (t == "sp" || t == "mp") && g.tags[cyc[0]] != "pt" {
+					if only := gOnlyTo(g.tags[cyc[clen-1]]); only != nil && g.tags[cyc[0]] != "pt" {
 						g.tags[cyc[0]] = "pt"
 						g.slots[cyc[0]] = []string{"-", "-", "-", "-", "-", "-", "-", "-", "-"}
 					}
@@ -1834,7 +1967,7 @@ func c06Graphs(thorough bool) {
 			graphCase(g.String(), rndn(n), mode())
 		}
 		// (5) self references of every tracked kind at every small depth
-		for _, t := range []string{"pt", "pi", "sa", "sn", "ma", "mn", "mi"} {
+		for _, t := range []string{"pt", "pi", "sa", "sn", "ma", "mn", "mi", "hp", "py", "sy", "my"} {
 			for _, pl := range []int{0, 999, 1000} {
 				g := &gGen{}
 				root, last := -1, -1
